@@ -7,9 +7,12 @@ require (
 	go.opentelemetry.io/collector/component v1.30.0
 	go.opentelemetry.io/collector/config/configretry v1.30.0
 	go.opentelemetry.io/collector/config/configtelemetry v0.124.0
+	go.opentelemetry.io/collector/connector v0.124.0
+	go.opentelemetry.io/collector/connector/forwardconnector v0.0.0
 	go.opentelemetry.io/collector/consumer v1.30.0
 	go.opentelemetry.io/collector/consumer/consumererror v0.124.0
 	go.opentelemetry.io/collector/exporter v0.124.0
+	go.opentelemetry.io/collector/internal/memorylimiter v0.124.0
 	go.opentelemetry.io/collector/pdata v1.30.0
 	go.opentelemetry.io/collector/pipeline v0.124.0
 	go.opentelemetry.io/collector/processor v1.30.0
@@ -57,7 +60,6 @@ require (
 	go.opentelemetry.io/collector/component/componentstatus v0.124.0 // indirect
 	go.opentelemetry.io/collector/component/componenttest v0.124.0 // indirect
 	go.opentelemetry.io/collector/confmap v1.30.0 // indirect
-	go.opentelemetry.io/collector/connector v0.124.0 // indirect
 	go.opentelemetry.io/collector/connector/connectortest v0.124.0 // indirect
 	go.opentelemetry.io/collector/connector/xconnector v0.124.0 // indirect
 	go.opentelemetry.io/collector/consumer/consumertest v0.124.0 // indirect
@@ -74,6 +76,8 @@ require (
 	go.opentelemetry.io/collector/pdata/pprofile v0.124.0 // indirect
 	go.opentelemetry.io/collector/pdata/testdata v0.124.0 // indirect
 	go.opentelemetry.io/collector/pipeline/xpipeline v0.124.0 // indirect
+	go.opentelemetry.io/collector/processor/processorhelper v0.124.0 // indirect
+	go.opentelemetry.io/collector/processor/processorhelper/xprocessorhelper v0.124.0 // indirect
 	go.opentelemetry.io/collector/processor/processortest v0.124.0 // indirect
 	go.opentelemetry.io/collector/processor/xprocessor v0.124.0 // indirect
 	go.opentelemetry.io/collector/receiver/receivertest v0.124.0 // indirect
